@@ -53,6 +53,7 @@ func init() {
 		EnumRule: "obligations per rule and construct",
 		Assumptions: []string{"strict monotonicity and the kernel-jump case analysis are relational facts over four variables and are not decided"},
 		Controls: []Control{
+			{Name: "success recorded before the cursor is adjusted", File: "kernel/mm/pmm/bootmem_allocator.go", Old: "\t\t// If last frame used a different region and the kernel image", New: "\t\terr = nil\n\t\t// If last frame used a different region and the kernel image", Expect: "C02.R2"},
 			{Name: "drop the > regionEndFrame re-check", File: "kernel/mm/pmm/bootmem_allocator.go", Old: "\t\tif alloc.lastAllocFrame > regionEndFrame {\n\t\t\treturn true\n\t\t}\n", New: "", Expect: "C02.R2"},
 			{Name: "allocation remembers the region in a new field", File: "kernel/mm/pmm/bootmem_allocator.go", Old: "\t\terr = nil\n\t\treturn false\n", New: "\t\talloc.kernelEndAddr = uintptr(region.PhysAddress)\n\t\terr = nil\n\t\treturn false\n", Expect: "C02.R3"},
 			{Name: "replay bound loaded after the reset", File: "kernel/mm/pmm/bitmap_allocator.go",
